@@ -627,19 +627,22 @@ def stratValue (s : Strat) (v : V) : Except Unit (Option V) :=
   | .each r w => eachValue r w v
 
 /-- one guarded statement: reading side `rs` with nil slots `N`, written side `ws` -/
-def execStmt (rs ws : SideSem) (N : List String) (mapperNil : Bool) (c : Claim) (w : WSt) : Except Unit WSt := do
-  let g ← evalGuard rs.ptrs N (readGuard rs.ptrs c.rd)
-  if !g then return w
-  match resolveField rs.tree c.rd, resolveField ws.tree c.wr with
-  | some rl, some wl =>
-    if !derefOk rs.ptrs N rl.path then throw ()
-    if !fnCallOk mapperNil c.strat then throw ()
-    match ← stratValue c.strat (readLeaf N rl) with
-    | none => return w
-    | some v =>
-      if !(hops ws.ptrs wl.path).all w.alloc.contains then throw ()
-      return { w with vals := w.vals ++ [(joinPath wl.path, v)] }
-  | _, _ => throw ()      -- does not compile (regions exclude it)
+def execStmt (rs ws : SideSem) (N : List String) (mapperNil : Bool) (c : Claim) (w : WSt) : Except Unit WSt :=
+  match evalGuard rs.ptrs N (readGuard rs.ptrs c.rd) with
+  | .error e => .error e
+  | .ok false => .ok w
+  | .ok true =>
+    match resolveField rs.tree c.rd, resolveField ws.tree c.wr with
+    | some rl, some wl =>
+      if !derefOk rs.ptrs N rl.path then .error ()
+      else if !fnCallOk mapperNil c.strat then .error ()
+      else match stratValue c.strat (readLeaf N rl) with
+        | .error e => .error e
+        | .ok none => .ok w
+        | .ok (some v) =>
+          if (hops ws.ptrs wl.path).all w.alloc.contains then .ok { w with vals := w.vals ++ [(joinPath wl.path, v)] }
+          else .error ()
+    | _, _ => .error ()      -- does not compile (regions exclude it)
 
 /-- `if d.P == nil { d.P = new(T) }` in list order -/
 def execAlloc (pp : List (List String)) : List (List String) → WSt → Except Unit WSt
@@ -649,9 +652,10 @@ def execAlloc (pp : List (List String)) : List (List String) → WSt → Except 
 
 def execStmts (rs ws : SideSem) (N : List String) (mapperNil : Bool) : List Claim → WSt → Except Unit WSt
   | [], w => .ok w
-  | c :: cs, w => do
-    let w' ← execStmt rs ws N mapperNil c w
-    execStmts rs ws N mapperNil cs w'
+  | c :: cs, w =>
+    match execStmt rs ws N mapperNil c w with
+    | .error e => .error e
+    | .ok w' => execStmts rs ws N mapperNil cs w'
 
 /-- constructor call `NewD(arg, …)`: arguments are evaluated unguarded; the constructor allocates
     every embedded pointer (C02) -/
